@@ -10,7 +10,7 @@ PROOF_FILES = [f for f in ['proofs/MetaProofs.v', 'proofs/WorldProofs.v'] if os.
 
 
 def main(tier, seed):
-    return icheck.run(PROP, tier, seed, genchart.Profile(p_send=0.7, p_action=0.85, p_contract=0.2), ifam.ScenarioSpec(n_rec=1, bound_callables=2, bound_charts=1, p_detach=0.1, p_queue=0.4, p_fail_bit=0.15, p_continue=0.7), icheck.interest_c15, PROOF_FILES, assumptions=['user notify names differ from the built-in meta-event names'])
+    return icheck.run(PROP, tier, seed, genchart.Profile(p_send=0.7, p_action=0.85, p_contract=0.2), ifam.ScenarioSpec(n_rec=1, bound_callables=3, bound_charts=1, p_detach=0.1, p_queue=0.4, p_fail_bit=0.15, p_continue=0.7), icheck.interest_c15, PROOF_FILES, assumptions=['user notify names differ from the built-in meta-event names'])
 
 
 replay = icheck.replay
